@@ -56,6 +56,9 @@ Bytes32(v) == PadLeft(Rev(Norm(v)), 32)
 (* the reference satisfies the property's range claim on every generated value *)
 GenRangeInv == \A v \in Values(g) : QnRangeOK(v, g.S, g.W, g.active, Max256, MaxQN)
 
+(* related message pairs for the real prover / verifier *)
+ASSUME PrintT(<<"VRFMSGCASES", ToJson(VrfMsgCases)>>)
+
 Dump == PrintT(<<"CASE", ToJson([S |-> g.S, W |-> g.W, active |-> g.active,
                                   values |-> {Bytes32(v) : v \in Values(g)}])>>)
 =============================================================================
